@@ -214,7 +214,7 @@ class LoadSurferCase(Contract):
         return []
 
     def samples(self, rng, nrng, tier):
-        n = 60 if tier == "thorough" else 16
+        n = 60 if tier == "thorough" else 24
         for k in range(n):
             nn, ne = rng.randint(2, 5), rng.randint(2, 6)
             vals = nrng.uniform(-1e3, 1e3, (nn, ne)) * rng.choice([1.0, 1e-6, 1e6])
@@ -230,7 +230,12 @@ class LoadSurferCase(Contract):
             if k % 4 == 3:  # a projected (UTM-like) region: large offsets, sub-metre spacing
                 region = (500000.25, 500000.25 + 0.25 * (ne - 1), 7000000.25, 7000000.25 + 0.25 * (nn - 1))
             fmt = rng.choice(["%.10g", "%14.7e", "%.6f", "%   .9g"])
-            kind = rng.choice(["ok", "ok", "ok", "wrapped", "bad_count", "swapped_count", "bad_range", "shifted_range", "ragged", "bad_token"])
+            kinds = ["ok", "wrapped", "bad_count", "swapped_count", "bad_range", "shifted_range", "ragged", "bad_token", "extra_rows", "ok", "ok"]
+            kind = kinds[k] if k < len(kinds) else rng.choice(kinds)  # every kind at least once
+            if kind == "extra_rows":
+                # more rows in the body than the header announces, the surplus repeating rows that are already there
+                # (so the value range of the announced rows is the range of the whole body)
+                vals[-1] = vals[0]
             good = vals[vals < SENTINEL]
             zr = (float(good.min()), float(good.max()))
             hdr_shape, wrap_cols = (nn, ne), None
@@ -238,6 +243,8 @@ class LoadSurferCase(Contract):
                 wrap_cols = rng.randint(1, ne - 1) if ne > 1 else None
             elif kind == "bad_count":
                 hdr_shape = (nn + rng.choice([-1, 1]), ne)
+            elif kind == "extra_rows":
+                hdr_shape = (nn - 1, ne)
             elif kind == "swapped_count" and nn != ne:
                 hdr_shape = (ne, nn)
             elif kind == "bad_range":
